@@ -54,8 +54,9 @@ impl Duration for std::time::Duration {
 
     #[inline(always)]
     fn div_duration_f64(self, rhs: Self) -> f64 {
-        // TODO: Can be changed to just `self.div_duration_f64(rhs)` when Rust 1.80 has
-        // been released and we are fine with that being the oldest working Rust version.
-        self.as_secs_f64() / rhs.as_secs_f64()
+        // the inherent method (stable since Rust 1.80) divides the exact
+        // nanosecond counts; dividing two rounded second counts can land just
+        // below a quotient that is exactly representable (15ns / 20ns < 0.75)
+        self.div_duration_f64(rhs)
     }
 }
